@@ -26,7 +26,7 @@ ASSUMPTIONS = ['precondition of the property: coordinate sorted input and every 
                'schedules are the deterministic ejection interval of a single-threaded generator']
 MIN_NONTRIVIAL = {'quick': 1500, 'thorough': 60000}
 REQUIRED_MONITORS = ['event:arrive', 'event:emit', 'emit:before_end_of_input', 'schedule:runs', 'path:alignmentfile', 'oracle:truth_compared',
-                     'eject:rounds_with_ejection', 'eject:rounds_nonprefix', 'eject:rounds_noncontiguous', 'history:restarted_passes', 'config:max_associated_fragments', 'lib:cross_contig_twins', 'lib:molecule_end_grows_after_creation', 'lib:plain_fragments_on_coordinate_0', 'config:cache_size_left_at_its_default']
+                     'eject:rounds_with_ejection', 'eject:rounds_nonprefix', 'eject:rounds_noncontiguous', 'history:restarted_passes', 'config:max_associated_fragments', 'lib:cross_contig_twins', 'lib:molecule_end_grows_after_creation', 'lib:plain_fragments_on_coordinate_0', 'config:cache_size_left_at_its_default', 'lib:plain_copies_sharing_only_start_or_only_end']
 EXHAUSTIVE = {'quick': True, 'thorough': True}
 SHARD_TIMEOUT = {'quick': 900, 'thorough': 7200}
 
@@ -128,17 +128,34 @@ def build_plain_exact(r, case):
                 continue
             used[(name, cell, reverse)].update([('s', a), ('e', b)])
             for umi in r.sample(['AAA', 'CCC', 'GGT'], r.randint(1, 2)):
+                # the copies of a molecule are identical, or share only their start, or share only their end (every two of them then still match);
+                # the free coordinate of a copy coincides with no start / end of any other molecule of this cell and strand
+                shape = r.choice(['identical', 'identical', 'share_start', 'share_end']) if 0 < a and b < ln and b - a > 12 else 'identical'
                 for _ in range(r.randint(1, 4)):
-                    recs.append({'name': F.qname(rid, case['i'] + 1, cell, umi), 'flag': 16 if reverse else 0, 'tid': gen.tid(name), 'pos': a, 'mapq': 60,
-                                 'cigar': f'{b - a}M', 'seq': ref[a:b], 'qual': [30] * (b - a), 'tags': {}, 'next_tid': -1, 'next_pos': -1})
-                    truths[rid] = {'id': rid, 'key': ('exact', name, cell, reverse, umi, a, b), 'span': (a, b), 'valid': True}
-                    if a == 0:
+                    a2, b2 = a, b
+                    if shape == 'share_start':
+                        b2 = a + r.randint(5, b - a)
+                        if b2 != b and ('e', b2) in used[(name, cell, reverse)]:
+                            b2 = b
+                        used[(name, cell, reverse)].add(('e', b2))
+                    elif shape == 'share_end':
+                        a2 = b - r.randint(5, b - a)
+                        if a2 != a and ('s', a2) in used[(name, cell, reverse)]:
+                            a2 = a
+                        used[(name, cell, reverse)].add(('s', a2))
+                    if shape != 'identical':
+                        SHAPED[0] += 1
+                    recs.append({'name': F.qname(rid, case['i'] + 1, cell, umi), 'flag': 16 if reverse else 0, 'tid': gen.tid(name), 'pos': a2, 'mapq': 60,
+                                 'cigar': f'{b2 - a2}M', 'seq': ref[a2:b2], 'qual': [30] * (b2 - a2), 'tags': {}, 'next_tid': -1, 'next_pos': -1})
+                    truths[rid] = {'id': rid, 'key': ('exact', name, cell, reverse, umi, a, b), 'span': (a2, b2), 'valid': True}
+                    if a2 == 0:
                         AT_ZERO[0] += 1
                     rid += 1
     return 'plain', cache, gen, recs, truths
 
 
 AT_ZERO = [0]
+SHAPED = [0]
 TWINS = [0]
 
 
@@ -239,10 +256,12 @@ def run_case(case):
     TWINS[0] = 0
     GROWN[0] = 0
     AT_ZERO[0] = 0
+    SHAPED[0] = 0
     method, cache, gen, recs, truths = build_input(r, case)
     acc.count('lib:cross_contig_twins', TWINS[0])
     acc.count('lib:molecule_end_grows_after_creation', GROWN[0])
     acc.count('lib:plain_fragments_on_coordinate_0', AT_ZERO[0])
+    acc.count('lib:plain_copies_sharing_only_start_or_only_end', SHAPED[0])
     if len(truths) < 2:
         return acc
     d = r.choice([0, 0, 1])
